@@ -26,10 +26,12 @@ RULE = (
     "schedules (arrival times in µs, token rows of mixed length, per-batch model latency 0..50 ms) enumerated and "
     "drawn from VERIF_SEED: bursts of 1..100 and 161..260 callers (below/at/above the batch threshold 8, above the queue "
     "depth 80 → back-pressure, above 2·80 → re-parked callers), trickles spaced 0.5/0.99/1.0/1.01/2 ms around the 1 ms "
-    "gather timeout, arrivals landing during and exactly at the end of a model call, random mixes. One evaluation = one "
+    "gather timeout, arrivals landing during and exactly at the end of a model call, random mixes; rows include zeros inside and at the end, "
+    "exact duplicates, and families that are equal once zero-padded (row B = row A ++ [0]*k; for the real network: real encodings of "
+    "empty / sparsely filled boards of different sizes with equal custom reserves, e.g. Config(size=3, pieces=15) vs default 4x4). One evaluation = one "
     "schedule run through the real Server on the virtual-time loop with (a) the fingerprinting model or (b) a real "
     "xformer.Transformer+PolicyValue compared with local ModelWrapper.evaluate (1e-5), its trace validated and its "
-    "deliveries compared by the Lean driver; plus GRPCNetwork.evaluate end to end through the in-process stub channel "
+    "deliveries compared by the Lean driver (the shape and row order of the model call are NOT compared); plus GRPCNetwork.evaluate end to end through the in-process stub channel "
     "and the float32 byte codec against the Lean codec. Non-trivial = a run with at least one batch of two or more "
     "rows, or with a parked caller; distinct by schedule text."
 )
@@ -375,21 +377,62 @@ def model_summary(line):
 # --------------------------------------------------------------------------------------------
 
 
-def _row(rng, maxlen=40):
+def _tok(rng, zero_p=0.0):
+    """token 0 is BOTH the value the server pads with and a legal token (Token.EMPTY)"""
+    return 0 if rng.random() < zero_p else rng.randint(1, FP_VOCAB - 1)
+
+
+def _row(rng, maxlen=40, zero_p=0.0):
     r = rng.random()
     n = 1 if r < 0.05 else (maxlen if r < 0.1 else rng.randint(1, maxlen))
-    return [rng.randint(1, FP_VOCAB - 1) for _ in range(n)]
+    return [_tok(rng, zero_p) for _ in range(n)]
+
+
+def _zero_family(rng, n):
+    """rows that become EQUAL once padded with zeros to a common width: a base row, its
+    zero-extensions base ++ [0]*k, exact copies, rows ending in zeros, all-zero rows of several
+    lengths, plus near misses (one token changed, a non-zero token after the zeros)"""
+    rows = []
+    while len(rows) < n:
+        base = _row(rng, rng.choice([1, 3, 8, 20]), zero_p=rng.choice([0.0, 0.3]))
+        if rng.random() < 0.15:
+            base = [0] * rng.randint(1, 6)
+        fam = [base]
+        for _ in range(rng.randint(1, 5)):
+            k = rng.randint(1, min(16, 40 - len(base)))
+            kind = rng.random()
+            if kind < 0.55:
+                fam.append(base + [0] * k)  # zero-extension
+            elif kind < 0.7:
+                fam.append(list(base))  # exact copy: same tokens, same length
+            elif kind < 0.8:
+                fam.append(base + [0] * k + [_tok(rng)])  # differs only after the zeros
+            elif kind < 0.9 and len(base) > 1:
+                fam.append(base[:-1])  # a prefix
+            else:
+                b2 = list(base)
+                b2[rng.randrange(len(b2))] = _tok(rng, 0.3)
+                fam.append(b2 + [0] * rng.randint(0, k))
+        rows += fam
+    rows = rows[:n]
+    rng.shuffle(rows)
+    return rows
 
 
 def _rows(rng, n, style=None):
-    style = style or rng.choice(["mixed", "mixed", "equal", "distinct-lengths", "short"])
+    style = style or rng.choice(["mixed", "zeros", "zero-family", "zero-family", "equal", "distinct-lengths", "short"])
+    if style == "zero-family":
+        return _zero_family(rng, n)
+    if style == "zeros":
+        return [_row(rng, zero_p=0.4) for _ in range(n)]
     if style == "equal":
         ln = rng.randint(1, 30)
-        return [[rng.randint(1, FP_VOCAB - 1) for _ in range(ln)] for _ in range(n)]
+        zp = rng.choice([0.0, 0.3])
+        return [[_tok(rng, zp) for _ in range(ln)] for _ in range(n)]
     if style == "distinct-lengths":
-        return [[rng.randint(1, FP_VOCAB - 1) for _ in range(1 + (i % 40))] for i in range(n)]
+        return [[_tok(rng) for _ in range(1 + (i % 40))] for i in range(n)]
     if style == "short":
-        return [_row(rng, 3) for _ in range(n)]
+        return [_row(rng, 3, zero_p=0.3) for _ in range(n)]
     return [_row(rng) for _ in range(n)]
 
 
@@ -450,17 +493,42 @@ def fp_schedules(ctx):
         yield "mix", sched(times, _rows(rng, len(times)), lat)
 
 
+def _real_zero_family(rng):
+    """Positions whose REAL encodings (encoding.encode) become equal once padded with zeros: the
+    padding value 0 is also Token.EMPTY.  Same reserves and side to move, boards of different
+    sizes that are empty (e.g. Config(size=3, pieces=15) vs the default 4x4, both 15/0), or that
+    carry the same few single stones in the first flat squares and are empty elsewhere; plus a
+    near miss (one more stone) and the same position at another ply of equal parity."""
+    S, C = rng.choice([(15, 0), (10, 0), (21, 1), (30, 1), (12, 1)])
+    ply = rng.choice([0, 0, 1, 2])
+    k = rng.choice([0, 0, 1, 2, 3])
+    head = [rng.choice("abdef") if rng.random() < 0.7 else "_" for _ in range(k)]
+    out = []
+    for n in rng.sample([3, 4, 5, 6, 7], rng.randint(2, 4)):
+        board = head + ["_"] * (n * n - k)
+        out.append("%d %d %d %d %d %d %s" % (n, S, C, S, C, ply, ",".join(board)))
+        r = rng.random()
+        if r < 0.25:
+            b2 = list(board)
+            b2[rng.randrange(k, n * n)] = rng.choice("ad")
+            out.append("%d %d %d %d %d %d %s" % (n, S, C, S, C, ply, ",".join(b2)))
+        elif r < 0.4:
+            out.append("%d %d %d %d %d %d %s" % (n, S, C, S, C, ply + 2, ",".join(board)))
+    return out
+
+
 def cls_schedules(ctx):
-    """real Transformer + PolicyValue; positions of mixed sizes (token rows of 15/22/31/42)"""
+    """real Transformer + PolicyValue; positions of mixed sizes (token rows of 15/22/31/42), and
+    families of positions whose encodings are zero-extensions of one another"""
     rng = ctx.rng
     positions = [ser.pos_str(p) for _, p in gen.sample_positions(rng, [3, 4, 5, 6], 2, per_game=4, constructed_per_size=0, custom_prob=0.0)]
     if "positions" not in _state:
         _state["positions"] = positions
     n_s = 120 if ctx.thorough else 30
     for k in range(n_s):
-        shape = rng.choice(["burst", "burst", "trickle", "during", "big"])
-        if shape == "burst":
-            times = [0] * rng.choice([1, 3, 8, 9, 20])
+        shape = rng.choice(["burst", "burst", "trickle", "during", "big", "zero-family", "zero-family"])
+        if shape in ("burst", "zero-family"):
+            times = [0] * rng.choice([1, 3, 8, 9, 20] if shape == "burst" else [2, 4, 9, 20])
         elif shape == "trickle":
             gap = rng.choice(GAPS)
             times = [i * gap for i in range(rng.choice([3, 9, 12]))]
@@ -468,7 +536,15 @@ def cls_schedules(ctx):
             times = [0] * rng.choice([2, 9]) + sorted(rng.choice([2500, 3500, rng.randint(0, 6000)]) for _ in range(rng.randint(1, 10)))
         else:
             times = [0] * rng.choice([85, 100])
-        rows = [rng.choice(positions) for _ in times]
+        pool = positions
+        if shape == "zero-family" or rng.random() < 0.3:
+            fam = _real_zero_family(rng)
+            pool = fam if shape == "zero-family" else positions + fam * 3
+        rows = [rng.choice(pool) for _ in times]
+        if shape == "zero-family":
+            for j, f in enumerate(fam[: len(rows)]):
+                rows[j] = f  # every member of the family at least once when the burst is large enough
+            rng.shuffle(rows)
         if rng.random() < 0.3 and len(rows) > 1:
             rows[-1] = rows[0]  # the same position asked twice
         yield "real-" + shape, {
@@ -760,12 +836,33 @@ def shrink(sched, key):
             break
         chunk = chunk // 2 if chunk > 1 else (1 if progressed else 0)
     if cur["mode"] == "fp":
-        # shorter rows: keep each row's length class (equal / unequal lengths matter), shrink content
+        # shorter rows: first a canonical small content per length class, else token by token
         lens = sorted({len(a[1]) for a in cur["arrivals"]})
         rank = {ln: 1 + k for k, ln in enumerate(lens)}
         small = [[a[0], [1 + (i + j) % (FP_VOCAB - 1) for j in range(rank[len(a[1])])]] for i, a in enumerate(cur["arrivals"])]
         if fails(dict(cur, arrivals=small)):
             cur = dict(cur, arrivals=small)
+        else:
+            budget = 150
+            j = 0  # drop a whole column (keeps "row B = row A ++ zeros" relations intact)
+            while j < max(len(a[1]) for a in cur["arrivals"]) and budget > 0:
+                arr = [[a[0], a[1][:j] + a[1][j + 1:]] for a in cur["arrivals"]]
+                budget -= 1
+                if all(a[1] for a in arr) and fails(dict(cur, arrivals=arr)):
+                    cur = dict(cur, arrivals=arr)
+                else:
+                    j += 1
+            for i in range(len(cur["arrivals"])):
+                j = 0
+                while j < len(cur["arrivals"][i][1]) and len(cur["arrivals"][i][1]) > 1 and budget > 0:
+                    row = cur["arrivals"][i][1]
+                    arr = [list(a) for a in cur["arrivals"]]
+                    arr[i][1] = row[:j] + row[j + 1:]
+                    budget -= 1
+                    if fails(dict(cur, arrivals=arr)):
+                        cur = dict(cur, arrivals=arr)
+                    else:
+                        j += 1
         t0 = min(a[0] for a in cur["arrivals"])
         if t0 and fails(dict(cur, arrivals=[[a[0] - t0, a[1]] for a in cur["arrivals"]])):
             cur = dict(cur, arrivals=[[a[0] - t0, a[1]] for a in cur["arrivals"]])
